@@ -57,6 +57,25 @@ def j_flt(j):
     return struct.unpack("<f", struct.pack("<I", (j["s"] << 31) | (j["e"] << 23) | m))[0]
 
 
+def _scribble(v, depth=0):
+    """edit every mutable container of a decoded value in place (after it has been recorded)"""
+    if depth > 6:
+        return
+    if isinstance(v, list):
+        for x in v:
+            _scribble(x, depth + 1)
+        v.append("<scribble>")
+    elif isinstance(v, dict):
+        for x in list(v.values()):
+            _scribble(x, depth + 1)
+        v["<scribble>"] = "<scribble>"
+    elif isinstance(v, set):
+        v.add("<scribble>")
+    elif isinstance(v, tuple):
+        for x in v:
+            _scribble(x, depth + 1)
+
+
 class Conv:
     """conversions that need the IR (UUIDs naming attached nodes come back as Node objects)"""
 
@@ -487,6 +506,7 @@ def run(ctx):
                     with time_limit(3):
                         dv = ser.decode(stream, name, ir.get_by_uuid)
                     rec["dec"].append({"who": who, "v": conv.to_j(t, dv)})
+                    _scribble(dv)      # a decoded value is the caller's: editing it must not reach any later decode
                 except Exception as e:
                     notes[who] = "%s: %s" % (type(e).__name__, e)
             # consumption: decoding a stream with trailing bytes must leave exactly those bytes
@@ -505,6 +525,33 @@ def run(ctx):
                 notes["node_resolution"] = wrong_nodes[:3]
             meta.append(notes)
             recs_out.append((rec, pb))
+    # C01 for AuxData values: every input as a table of one IR, the IR saved and loaded, every table read back
+    try:
+        mod = next(iter(ir.modules))
+        kept = []
+        for i, (t, v) in enumerate(inputs):
+            if recs_out[i][1] is not None:
+                mod.aux_data["t%d" % i] = gtirb.AuxData(Conv(gtirb, ir).to_py(t, v), show(t))
+                kept.append(i)
+        buf = io.BytesIO()
+        ir.save_protobuf_file(buf)
+        ir_l = gtirb.IR.load_protobuf_file(io.BytesIO(buf.getvalue()))
+        mod_l = next(iter(ir_l.modules))
+        for i in kept:
+            t, v = inputs[i]
+            try:
+                tab = mod_l.aux_data["t%d" % i]
+                if tab.type_name != show(t):
+                    raise ValueError("type name %r came back as %r" % (show(t), tab.type_name))
+                with time_limit(3):
+                    dv = tab.data
+                recs_out[i][0]["dec"].append({"who": "python-reloads-file", "v": Conv(gtirb, ir_l).to_j(t, dv)})
+            except Exception as e:
+                meta[i]["python-reloads-file"] = "%s: %s" % (type(e).__name__, e)
+        for i in kept:
+            del mod.aux_data["t%d" % i]
+    except Exception as e:
+        meta[0]["python-reloads-file"] = "whole file: %s: %s" % (type(e).__name__, e)
     if java is not None and java.ok:
         reqs, owner = [], []
         for i, (t, v) in enumerate(inputs):
@@ -555,7 +602,7 @@ def run(ctx):
             vv = viol("C08", "wrong-bytes", t, v, x.get("expected"), {"who": x["who"], "python_bytes": meta[i]})
             vv["observed"] = [e["bytes"] for e in json.loads(open(p2).read().splitlines()[i])["enc"]]
         else:
-            vv = viol("C07" if x["who"] == "python-decodes-python" else "C08", "wrong-value", t, v, v, {"who": x["who"]})
+            vv = viol({"python-decodes-python": "C07", "python-reloads-file": "C01"}.get(x["who"], "C08"), "wrong-value", t, v, v, {"who": x["who"]})
             vv["signature"] += "/" + x["who"]
         nviol += 1
         if mine(vv):
@@ -566,7 +613,7 @@ def run(ctx):
         t, v = inputs[i]
         for k, msg in notes.items():
             prop = {"encode_exc": "C07", "python-decodes-python": "C07", "python-decodes-spec": "C08",
-                    "consumption": "C07", "node_resolution": "C07"}.get(k, "C08")
+                    "consumption": "C07", "node_resolution": "C07", "python-reloads-file": "C01"}.get(k, "C08")
             vv = viol(prop, k, t, v, "no exception / exact consumption / Node iff attached", msg)
             if mine(vv):
                 ctx.violations.append(vv)
